@@ -85,7 +85,7 @@ def handleNary (j : Json) (op : String) : Except String Verdict := do
            tags := tags ++ (if rows.any (fun r => r.2.2.any (·.isNone)) then ["follower-absent"] else []) }
   | _, _ => throw s!"C04: bad n-ary op {op}"
 
-def handleC04 (j : Json) : Except String Verdict := do
+def handleC04Core (j : Json) : Except String Verdict := do
   let op ← fStr j "op"
   if op == "nand" || op == "nor" || op == "lf" then return (← handleNary j op)
   let d ← fNat j "d"
@@ -138,5 +138,73 @@ def handleC04 (j : Json) : Except String Verdict := do
     let spec := if op == "or" then orSpecB pa pb rows else xorSpecB pa pb rows
     pure { agree := decide (m = rows), spec, model := out, tags }
   | _ => throw s!"C04: unknown op {op}"
+
+end FtDriver
+
+namespace FtDriver
+open Ft
+open Lean (Json)
+
+/-- a 1-level fiber with tuple coordinates: presented (non-default) elements with storage positions -/
+def parseTupleFiber (dflt : Int) (j : Json) : Except String (Fib TCoord Nat × Fib TCoord Nat) := do
+  let rows ← (← asList j).mapM (fun e => do
+    match (← asList e) with
+    | [c, v] => do pure ((⟨← asInts c⟩ : TCoord), (← v.getInt?))
+    | _ => throw "tuple fiber row")
+  let all := rows.zipIdx.map (fun r => (r.1.1, r.2))
+  let pres := (rows.zipIdx.filter (fun r => r.1.2 != dflt)).map (fun r => (r.1.1, r.2))
+  pure (all, pres)
+
+def tcJson (c : TCoord) : Json := jInts c.v
+
+def handleTuple (j : Json) : Except String Verdict := do
+  let dflt := fIntD j "dflt" 0
+  let opk ← fStr j "opk"
+  let ka ← fNat j "ka"
+  let kb ← fNat j "kb"
+  let (allA, pa) ← parseTupleFiber dflt (← field j "a")
+  let (allB, pb) ← parseTupleFiber dflt (← field j "b")
+  if !(sortedB allA && sortedB allB && allA.all (fun e => e.1.v.length == ka) && allB.all (fun e => e.1.v.length == kb)) then
+    return { agree := true, spec := true, tags := ["OUT_OF_MODEL"] }
+  let impl ← fArr j "impl"
+  let tags := [s!"arity{ka}-{kb}"] ++ (if pa.isEmpty || pb.isEmpty then ["some-empty"] else [])
+  match opk with
+  | "and" =>
+    let rows ← impl.mapM (fun r => do
+      match (← asList r) with
+      | [c, ia, ib] => do pure ((⟨← asInts c⟩ : TCoord), ((← ia.getNat?), (← ib.getNat?)))
+      | _ => throw "tuple and row")
+    let (m, spec) : Fib TCoord (Nat × Nat) × Fib TCoord (Nat × Nat) :=
+      if ka == kb then (andMerge pa pb, andSpec pa pb)
+      else if ka < kb then (prefixAndMerge ka pa pb, prefixAndSpec ka pa pb)
+      else ((prefixAndMerge kb pb pa).map (fun r => (r.1, (r.2.2, r.2.1))),
+            (prefixAndSpec kb pb pa).map (fun r => (r.1, (r.2.2, r.2.1))))
+    pure { agree := decide (m = rows), spec := decide (rows = spec),
+           model := jList (m.map (fun r => jList [tcJson r.1, jNat r.2.1, jNat r.2.2])),
+           tags := tags ++ (if m.isEmpty then ["empty-result"] else ["nonempty-result"]) }
+  | "sub" =>
+    if ka != kb then return { agree := true, spec := true, tags := ["OUT_OF_MODEL"] }
+    let rows ← impl.mapM (fun r => do
+      match (← asList r) with
+      | [c, ia] => do pure ((⟨← asInts c⟩ : TCoord), (← ia.getNat?))
+      | _ => throw "tuple sub row")
+    let m := subMerge pa pb
+    pure { agree := decide (m = rows), spec := decide (rows = subSpec pa pb),
+           model := jList (m.map (fun r => jList [tcJson r.1, jNat r.2])), tags }
+  | "or" | "xor" =>
+    if ka != kb then return { agree := true, spec := true, tags := ["OUT_OF_MODEL"] }
+    let rows ← impl.mapM (fun r => do
+      match (← asList r) with
+      | [c, m, ia, ib] => do
+        pure ((⟨← asInts c⟩ : TCoord), ((← maskOfStr (← m.getStr?)), optPos (← ia.getInt?), optPos (← ib.getInt?)))
+      | _ => throw "tuple or row")
+    let m := if opk == "or" then orMerge pa pb else xorMerge pa pb
+    let spec := if opk == "or" then orSpecB pa pb rows else xorSpecB pa pb rows
+    pure { agree := decide (m = rows), spec,
+           model := jList (m.map (fun r => jList [tcJson r.1, Json.str r.2.1.toString, posJson r.2.2.1, posJson r.2.2.2])), tags }
+  | _ => throw s!"C04 tuple: unknown op {opk}"
+
+def handleC04 (j : Json) : Except String Verdict := do
+  if (← fStr j "op") == "tuple" then handleTuple j else handleC04Core j
 
 end FtDriver
